@@ -11,6 +11,7 @@ Not modelled, only exercised: the SQLite engine itself, interpreter hash randomi
 byte-identity run), garbage collection.
 -/
 import Paroxy.Proofs.Process
+import Paroxy.Proofs.ProcCollect
 import Paroxy.Proofs.Collect
 import Paroxy.Props.C11
 namespace Paroxy.Props.C03
@@ -27,7 +28,8 @@ theorem C03_invariant :
   intro S p h
   have h1 := parseStep_sqlInv E h.1 p
   have h2 := parseStep_taxo E h.1 p
-  unfold step
+  unfold step stepG
+  rw [show parseStepG E true S p = parseStep E S p from rfl]
   split
   · rename_i S1 e heq
     rw [heq] at h1 h2
@@ -54,8 +56,8 @@ theorem C03_output (S : State) (p : Program) (h : Inv E lit0 S) :
     (step E S p).2 = specOut E lit0 p := by
   have hout := parseStep_out E h.1 (⟨rfl, rfl⟩ : SqlInv (init lit0).sql) p
   have h2 := parseStep_taxo E h.1 p
-  unfold step specOut
-  rw [← hout]
+  unfold step stepG specOut
+  rw [show parseStepG E true S p = parseStep E S p from rfl, ← hout]
   split
   · rename_i S1 e heq
     rw [heq]
@@ -88,8 +90,8 @@ theorem C03_hash_state (S : State) (p : Program) (reprs : List Name) (h : Inv E 
     (hp : p.parsed = .tree reprs) :
     (step E S p).1.hash = (HashState.reset.callAll reprs).1 := by
   have hcr := create_of_inv h.1
-  unfold step parseStep
-  simp only [hp]
+  unfold step stepG parseStepG
+  simp only [hp, if_true]
   cases hr : p.regexLabels (HashState.reset.callAll reprs).2 with
   | error e => rfl
   | ok labels0 =>
@@ -100,6 +102,32 @@ theorem C03_hash_state (S : State) (p : Program) (reprs : List Name) (h : Inv E 
     rw [hq]
     rfl
 
+/-! ### The hash reset is a real obligation -/
+
+def exEngines : Engines :=
+  { queries := [], derive := fun _ _ _ => [], looksLikeTaxon := fun _ => false,
+    compiled := fun _ => [], assemble := fun _ => [] }
+
+/-- a program with one expression `2` -/
+def progQ : Program := { parsed := .tree [[50]], lines := 1, regexLabels := fun _ => .ok [] }
+
+/-- a program with one expression `1`, and a feature whose label shows the identifier the expression
+got (as the regex features matching `_hash=` lines of the flat AST can) -/
+def progP : Program :=
+  { parsed := .tree [[49]], lines := 1, regexLabels := fun vs => .ok [{ name := vs, spans := [] }] }
+
+/-- **Without `pseudo_hash.reset()` the property fails.** If `flatten_ast` did not reset the counter
+(`resets = false`: expressions hashed from the counter and cache left by the previous program), the
+tags of `progP` after `progQ` would differ from its tags in a fresh process (identifier 2 instead of 1).
+So `C03_independent` / `C03_history` — proved for the code as written, `resets = true` — do depend on
+the line flatten_ast.py:369: removing it falsifies them. -/
+theorem C03_no_reset_breaks :
+    (stepG exEngines false (stepG exEngines false (init []) progQ).1 progP).2 ≠
+      (stepG exEngines false (init []) progP).2 ∧
+    (stepG exEngines true (stepG exEngines true (init []) progQ).1 progP).2 =
+      (stepG exEngines true (init []) progP).2 := by
+  decide
+
 /-- **Why the invariant matters.** In a state where the table `t` was left behind (what a leak between
 programs would be), every later parsed program fails with `OperationalError` ("table t already
 exists"): the boundary invariant is exactly what makes the outputs state-independent. -/
@@ -107,8 +135,8 @@ theorem C03_leak_breaks (S : State) (p : Program) (reprs : List Name) (rows labe
     (ht : S.sql.t = some rows) (hp : p.parsed = .tree reprs)
     (hr : p.regexLabels (HashState.reset.callAll reprs).2 = .ok labels0) :
     (step E S p).2 = .error operationalError := by
-  unfold step parseStep
-  simp only [hp, hr, SqlState.create, ht]
+  unfold step stepG parseStepG
+  simp only [hp, if_true, hr, SqlState.create, ht]
 
 /-- **C03 (collection).** In a collection, the record of a program is a function of the program itself
 (path, stored source, the labels its own text gets — `C03_history`) and of *which of the module names
@@ -152,6 +180,72 @@ theorem C03_collection {toTaxa : Name → List Label → List Taxon} {progs prog
     rw [this]
   unfold recordOf
   rw [hlab]
+
+/-- Non-vacuity of `C03_collection`: the two-program cycle `a.py ⇄ b.py`, and the same collection with a
+third program `c.py`; `a.py` names the same collected modules in both, so it has the same record. -/
+example : ∃ db db', makeDb (fun _ _ => []) C11.cycleProgs = .ok db ∧
+    makeDb (fun _ _ => [])
+      (C11.cycleProgs ++ [{ path := C11.exC, timestamp := [], source := [], labels := [] }]) = .ok db' ∧
+    get? db.programs C11.exA = get? db'.programs C11.exA := by
+  obtain ⟨db, h⟩ := C11.C11_total (toTaxa := fun _ _ => []) (progs := C11.cycleProgs)
+  obtain ⟨db', h'⟩ := C11.C11_total (toTaxa := fun _ _ => [])
+    (progs := C11.cycleProgs ++ [{ path := C11.exC, timestamp := [], source := [], labels := [] }])
+  refine ⟨db, db', h, h', ?_⟩
+  have := C03_collection h h' (by decide) (by decide) (p := C11.cycleProgs.head!) (by decide) (by decide)
+    (by
+      intro l hl m hs
+      have hl' : l = { name := C11.impB, spans := [(1, 1, [])] } := by
+        have : C11.cycleProgs.head!.labels = [{ name := C11.impB, spans := [(1, 1, [])] }] := rfl
+        rw [this] at hl
+        exact List.mem_singleton.mp hl
+      rw [hl'] at hs
+      have hm : m = [98] := by
+        have : searchImport? C11.impB = some [98] := by decide
+        rw [this] at hs
+        exact (Option.some.inj hs).symm
+      rw [hm]
+      decide)
+  exact this
+
+/-! ### The collection, with the process state threaded -/
+
+/-- **C03 (in a collection = alone).** `collectProc` threads ONE parser state over the sorted programs
+(`parseSeq`), relabels, threads ONE taxonomy state over the relabelled labels (`taxaSeq`) and assembles
+the database. For a program that names no collected module other than itself, the record it gets inside
+the collection is the record it gets when collected alone — whatever programs come before and after it.
+The labels of a program are not an input here: they are what the shared parser returns when its turn
+comes (`collectProc_eq` reduces the threaded run to `makeDb` on the labels each program gets alone). -/
+theorem C03_record_alone {items : List Item} {it : Item} {db db1 : Db}
+    (hn : (items.map (·.path)).Nodup) (hit : it ∈ items)
+    (h : collectProc E lit0 items = .ok db) (h1 : collectProc E lit0 [it] = .ok db1)
+    (hno : ∀ l ∈ labelsAlone E lit0 it, ∀ m, searchImport? l.name = some m →
+      replaceChar cDot cSlash m ++ sPy ∈ items.map (·.path) →
+        replaceChar cDot cSlash m ++ sPy = it.path) :
+    get? db.programs it.path = get? db1.programs it.path := by
+  have e := collectProc_eq hn h
+  have e1 := collectProc_eq (items := [it]) (by simp) h1
+  have hpaths : pathsOf (items.map (progAlone E lit0)) = items.map (·.path) := by
+    simp [pathsOf, progAlone, List.map_map, Function.comp_def]
+  have := C03_collection e e1 (by rw [hpaths]; exact hn) (by simp [pathsOf])
+    (p := progAlone E lit0 it) (List.mem_map.mpr ⟨it, hit, rfl⟩) (by simp)
+    (by
+      intro l hl m hs
+      have hl' : l ∈ labelsAlone E lit0 it := hl
+      simp only [internalOf, internalPaths, List.mem_append, List.map_cons,
+        List.map_nil, List.mem_cons, List.not_mem_nil, or_false]
+      have hp : (List.map (fun x => x.path) (List.map (progAlone E lit0) items)) = items.map (·.path) := hpaths
+      rw [hp]
+      constructor
+      · rintro (hm | hm)
+        · exact Or.inl (hno l hl' m hs hm)
+        · exact Or.inr hm
+      · rintro (hm | hm)
+        · left
+          have : (progAlone E lit0 it).path = it.path := rfl
+          rw [this] at hm
+          rw [hm]; exact List.mem_map.mpr ⟨it, hit, rfl⟩
+        · exact Or.inr hm)
+  exact this
 
 /-- Non-vacuity: the fresh state satisfies the invariant, so `C03_history` speaks about every real
 run; and a state with a leftover table does not (cf. `C03_leak_breaks`). -/
